@@ -1054,10 +1054,19 @@ fn serialise_option<T>(option: DhcpOption, bytes: &[T], v: &mut Vec<u8>)
 where
     T: Serialise,
 {
-    option.serialise(v);
-    (bytes.len() as u8).serialise(v);
-    for i in bytes.iter() {
-        i.serialise(v);
+    if bytes.is_empty() {
+        option.serialise(v);
+        0_u8.serialise(v);
+    }
+    /* RFC3396: a value that does not fit into one instance of the option is split over several,
+     * which the receiver concatenates again.
+     */
+    for chunk in bytes.chunks(255) {
+        option.serialise(v);
+        (chunk.len() as u8).serialise(v);
+        for i in chunk.iter() {
+            i.serialise(v);
+        }
     }
 }
 
